@@ -72,4 +72,12 @@ ChainVerdicts ==
            ok == IF c.dir = "next" THEN T_Tiles(p, c.ch, c.done = 1)
                                    ELSE T_Back(p, c.ch, c.done = 1)
        IN PrintT(ToJson([cid |-> i, ok |-> ok]))
+
+\* recorded batch lists {p, w: [s, e], nb: [[s, e]...], pb: [[s, e]...]}: evaluated in the initial state of a dedicated run
+Lists == JsonDeserialize("lists.json")
+ListVerdicts ==
+    \A i \in 1..Len(Lists) :
+       LET c == Lists[i]
+           p == ParOf(c)
+       IN PrintT(ToJson([lid |-> i, next |-> L_Next(p, c.w, c.nb), prev |-> L_Prev(p, c.w, c.pb)]))
 =============================================================================
